@@ -332,6 +332,8 @@ func init() {
 			}
 		}
 		c.clientCorruptStreams()
+		// the client clause through the command loop: a command must not succeed on a damaged acknowledge
+		c.commandCases("client", c.pick(60, 400))
 	}
 
 	props["C06"] = func(c *ctx) {
